@@ -153,8 +153,8 @@ package parser
 //@   p.constants == a && p.inlineTextsSet == b && p.inlineTextCounts == c && p.inlineMovementsSet == d && p.inlineMovementCounts == e
 
 // ---- hoisting slots (C06): every recorded inline text / moves() points at an existing argument slot of its command ----
-//@ pred TextSlotOK(t impText) = t.command != nil && 0 <= t.argPos && t.argPos < len(t.command.Args)
-//@ pred MoveSlotOK(m impMovement) = m.command != nil && 0 <= m.argPos && m.argPos < len(m.command.Args)
+//@ pred TextSlotOK(t impText) = allocated(t.command) && 0 <= t.argPos && t.argPos < len(t.command.Args)
+//@ pred MoveSlotOK(m impMovement) = allocated(m.command) && 0 <= m.argPos && m.argPos < len(m.command.Args)
 //@ pred ImpOK(d *impData) = d == nil || ((forall k int :: {d.texts[k]} (0 <= k && k < len(d.texts)) ==> TextSlotOK(d.texts[k]))
 //@     && (forall k int :: {d.movements[k]} (0 <= k && k < len(d.movements)) ==> MoveSlotOK(d.movements[k])))
 
@@ -165,6 +165,11 @@ package parser
 
 //@ func getMovementsKey
 //@   ensures [C06:movkey] result == MovKey(movements)
+//@   loop 1
+//@     use MKeyPcsBase(movements)
+//@     use MKeyPcsStep(movements, $i)
+//@     use MKeyPcsStep(movements, $i - 1)
+//@     invariant [C06:movkey-inv] $i <= len(movements) && sb.pieces == MKeyPcs(movements, $i) && sb.markers == nopieces()
 //@ end
 
 //@ func ParseFrame
@@ -191,7 +196,7 @@ package parser
 //@ func (p *Parser) expectPeekVarOrAutoVar
 //@   include ParseFrame
 //@   ensures [C11,C18:autovar-taken] (result3 == nil && old(p.peekToken.Type) != token.VAR) ==> (result0 != nil && result1 != nil)
-//@   ensures [C06:slot] result3 == nil ==> ImpOK(result2)
+//@   ensures [C06:slot] result3 == nil ==> (ImpOK(result2) && (result2 == nil || fresh(result2)))
 //@   ensures [C11,C18:autovar-results] (result3 == nil && result1 != nil) ==> (result0 != nil && fresh(result1))
 //@   ensures [C11,C18:autovar-var] (result3 == nil && result1 == nil) ==> result0 == nil
 //@   ensures [C20:stack-balanced] result3 == nil ==> (SameStack(p.breakStack, old(p.breakStack)) && SameStack(p.continueStack, old(p.continueStack)))
@@ -200,7 +205,7 @@ package parser
 
 //@ func (p *Parser) parseTopLevelStatement
 //@   include ParseFrame
-//@   modifies p.constants, p.inlineTextsSet, p.inlineTextCounts, p.inlineMovementsSet, p.inlineMovementCounts, allof(ast.CommandStatement.Args)
+//@   modifies fields(p.constants), fields(p.inlineTextsSet), fields(p.inlineTextCounts), fields(p.inlineMovementsSet), fields(p.inlineMovementCounts), allof(ast.CommandStatement.Args)
 //@   ensures [C20:stack-balanced] result1 == nil ==> (SameStack(p.breakStack, old(p.breakStack)) && SameStack(p.continueStack, old(p.continueStack)))
 //@   loopinv [C20:stack-balanced-inv] SameStack(p.breakStack, old(p.breakStack)) && SameStack(p.continueStack, old(p.continueStack))
 //@ end
@@ -210,30 +215,34 @@ package parser
 //@   requires [C06:slot] ImpOK(implicitData)
 //@   ensures [C20:stack-balanced] SameStack(p.breakStack, old(p.breakStack)) && SameStack(p.continueStack, old(p.continueStack))
 //@   loopinv [C20:stack-balanced-inv] SameStack(p.breakStack, old(p.breakStack)) && SameStack(p.continueStack, old(p.continueStack))
-//@   modifies p.constants, p.inlineTextsSet, p.inlineTextCounts, p.inlineMovementsSet, p.inlineMovementCounts, allof(ast.CommandStatement.Args)
+//@   modifies fields(p.inlineTextsSet), fields(p.inlineTextCounts), fields(p.inlineMovementsSet), fields(p.inlineMovementCounts), allof(ast.CommandStatement.Args)
 //@ end
 
 //@ func (p *Parser) addImplicitTexts
 //@   include ParseFrame
+//@   ensures [C06:args-len] forall c *ast.CommandStatement :: {c.Args} len(c.Args) == old(len(c.Args))
+//@   loopinv [C06:args-len-inv] forall c *ast.CommandStatement :: {c.Args} len(c.Args) == old(len(c.Args))
 //@   loopinv [C06:slot-inv] forall k int :: {texts[k]} (0 <= k && k < len(texts)) ==> TextSlotOK(texts[k])
-//@   requires [C06:slot] forall k int :: {texts[k]} (0 <= k && k < len(texts)) ==> (texts[k].command != nil && 0 <= texts[k].argPos && texts[k].argPos < len(texts[k].command.Args))
+//@   requires [C06:slot] forall k int :: {texts[k]} (0 <= k && k < len(texts)) ==> TextSlotOK(texts[k])
 //@   ensures [C20:stack-balanced] SameStack(p.breakStack, old(p.breakStack)) && SameStack(p.continueStack, old(p.continueStack))
 //@   loopinv [C20:stack-balanced-inv] SameStack(p.breakStack, old(p.breakStack)) && SameStack(p.continueStack, old(p.continueStack))
-//@   modifies p.constants, p.inlineTextsSet, p.inlineTextCounts, p.inlineMovementsSet, p.inlineMovementCounts, allof(ast.CommandStatement.Args)
+//@   modifies fields(p.inlineTextsSet), fields(p.inlineTextCounts), fields(p.inlineMovementsSet), fields(p.inlineMovementCounts), allof(ast.CommandStatement.Args)
 //@ end
 
 //@ func (p *Parser) addImplicitMovements
 //@   include ParseFrame
+//@   ensures [C06:args-len] forall c *ast.CommandStatement :: {c.Args} len(c.Args) == old(len(c.Args))
+//@   loopinv [C06:args-len-inv] forall c *ast.CommandStatement :: {c.Args} len(c.Args) == old(len(c.Args))
 //@   loopinv [C06:slot-inv] forall k int :: {movements[k]} (0 <= k && k < len(movements)) ==> MoveSlotOK(movements[k])
-//@   requires [C06:slot] forall k int :: {movements[k]} (0 <= k && k < len(movements)) ==> (movements[k].command != nil && 0 <= movements[k].argPos && movements[k].argPos < len(movements[k].command.Args))
+//@   requires [C06:slot] forall k int :: {movements[k]} (0 <= k && k < len(movements)) ==> MoveSlotOK(movements[k])
 //@   ensures [C20:stack-balanced] SameStack(p.breakStack, old(p.breakStack)) && SameStack(p.continueStack, old(p.continueStack))
 //@   loopinv [C20:stack-balanced-inv] SameStack(p.breakStack, old(p.breakStack)) && SameStack(p.continueStack, old(p.continueStack))
-//@   modifies p.constants, p.inlineTextsSet, p.inlineTextCounts, p.inlineMovementsSet, p.inlineMovementCounts, allof(ast.CommandStatement.Args)
+//@   modifies fields(p.inlineTextsSet), fields(p.inlineTextCounts), fields(p.inlineMovementsSet), fields(p.inlineMovementCounts), allof(ast.CommandStatement.Args)
 //@ end
 
 //@ func (p *Parser) parseScriptStatement
 //@   include ParseFrame
-//@   ensures [C06:slot] result2 == nil ==> ImpOK(result1)
+//@   ensures [C06:slot] result2 == nil ==> (ImpOK(result1) && (result1 == nil || fresh(result1)))
 //@   ensures [C20:stack-balanced] result2 == nil ==> (SameStack(p.breakStack, old(p.breakStack)) && SameStack(p.continueStack, old(p.continueStack)))
 //@   loopinv [C20:stack-balanced-inv] SameStack(p.breakStack, old(p.breakStack)) && SameStack(p.continueStack, old(p.continueStack))
 //@ end
@@ -241,7 +250,7 @@ package parser
 //@ func (p *Parser) parseBlockStatement
 //@   include ParseFrame
 //@   loopinv [C06:slot-inv] impData != nil && fresh(impData) && ImpOK(impData)
-//@   ensures [C06:slot] result2 == nil ==> ImpOK(result1)
+//@   ensures [C06:slot] result2 == nil ==> (ImpOK(result1) && (result1 == nil || fresh(result1)))
 //@   ensures [C20:stack-balanced] result2 == nil ==> (SameStack(p.breakStack, old(p.breakStack)) && SameStack(p.continueStack, old(p.continueStack)))
 //@   loopinv [C20:stack-balanced-inv] SameStack(p.breakStack, old(p.breakStack)) && SameStack(p.continueStack, old(p.continueStack))
 //@ end
@@ -249,14 +258,14 @@ package parser
 //@ func (p *Parser) parseSwitchBlockStatement
 //@   include ParseFrame
 //@   loopinv [C06:slot-inv] impData != nil && fresh(impData) && ImpOK(impData)
-//@   ensures [C06:slot] result2 == nil ==> ImpOK(result1)
+//@   ensures [C06:slot] result2 == nil ==> (ImpOK(result1) && (result1 == nil || fresh(result1)))
 //@   ensures [C20:stack-balanced] result2 == nil ==> (SameStack(p.breakStack, old(p.breakStack)) && SameStack(p.continueStack, old(p.continueStack)))
 //@   loopinv [C20:stack-balanced-inv] SameStack(p.breakStack, old(p.breakStack)) && SameStack(p.continueStack, old(p.continueStack))
 //@ end
 
 //@ func (p *Parser) parseStatement
 //@   include ParseFrame
-//@   ensures [C06:slot] result2 == nil ==> ImpOK(result1)
+//@   ensures [C06:slot] result2 == nil ==> (ImpOK(result1) && (result1 == nil || fresh(result1)))
 //@   ensures [C20:stack-balanced] result2 == nil ==> (SameStack(p.breakStack, old(p.breakStack)) && SameStack(p.continueStack, old(p.continueStack)))
 //@   loopinv [C20:stack-balanced-inv] SameStack(p.breakStack, old(p.breakStack)) && SameStack(p.continueStack, old(p.continueStack))
 //@ end
@@ -268,7 +277,7 @@ package parser
 //@          && (impData.texts[k].argPos < len(command.Args) || (impData.texts[k].argPos == len(command.Args) && len(argParts) > 0)))
 //@   loopinv [C06:slot-inv] forall k int :: {impData.movements[k]} (0 <= k && k < len(impData.movements)) ==> (impData.movements[k].command == command && 0 <= impData.movements[k].argPos
 //@          && (impData.movements[k].argPos < len(command.Args) || (impData.movements[k].argPos == len(command.Args) && len(argParts) > 0)))
-//@   ensures [C06:slot] result2 == nil ==> ImpOK(result1)
+//@   ensures [C06:slot] result2 == nil ==> (ImpOK(result1) && (result1 == nil || fresh(result1)))
 //@   ensures [C18:cmd-fresh] result2 == nil ==> (result0 != nil && fresh(result0))
 //@   ensures [C20:stack-balanced] result2 == nil ==> (SameStack(p.breakStack, old(p.breakStack)) && SameStack(p.continueStack, old(p.continueStack)))
 //@   loopinv [C20:stack-balanced-inv] SameStack(p.breakStack, old(p.breakStack)) && SameStack(p.continueStack, old(p.continueStack))
@@ -367,7 +376,7 @@ package parser
 //@ func (p *Parser) parseMapscriptsStatement
 //@   include ParseFrame
 //@   loopinv [C06:slot-inv] impData != nil && fresh(impData) && ImpOK(impData)
-//@   ensures [C06:slot] result2 == nil ==> ImpOK(result1)
+//@   ensures [C06:slot] result2 == nil ==> (ImpOK(result1) && (result1 == nil || fresh(result1)))
 //@   ensures [C20:stack-balanced] result2 == nil ==> (SameStack(p.breakStack, old(p.breakStack)) && SameStack(p.continueStack, old(p.continueStack)))
 //@   loopinv [C20:stack-balanced-inv] SameStack(p.breakStack, old(p.breakStack)) && SameStack(p.continueStack, old(p.continueStack))
 //@ end
@@ -387,21 +396,21 @@ package parser
 //@ func (p *Parser) parseIfStatement
 //@   include ParseFrame
 //@   loopinv [C06:slot-inv] impData != nil && fresh(impData) && ImpOK(impData)
-//@   ensures [C06:slot] result2 == nil ==> ImpOK(result1)
+//@   ensures [C06:slot] result2 == nil ==> (ImpOK(result1) && (result1 == nil || fresh(result1)))
 //@   ensures [C20:stack-balanced] result2 == nil ==> (SameStack(p.breakStack, old(p.breakStack)) && SameStack(p.continueStack, old(p.continueStack)))
 //@   loopinv [C20:stack-balanced-inv] SameStack(p.breakStack, old(p.breakStack)) && SameStack(p.continueStack, old(p.continueStack))
 //@ end
 
 //@ func (p *Parser) parseWhileStatement
 //@   include ParseFrame
-//@   ensures [C06:slot] result2 == nil ==> ImpOK(result1)
+//@   ensures [C06:slot] result2 == nil ==> (ImpOK(result1) && (result1 == nil || fresh(result1)))
 //@   ensures [C20:stack-balanced] result2 == nil ==> (SameStack(p.breakStack, old(p.breakStack)) && SameStack(p.continueStack, old(p.continueStack)))
 //@   loopinv [C20:stack-balanced-inv] SameStack(p.breakStack, old(p.breakStack)) && SameStack(p.continueStack, old(p.continueStack))
 //@ end
 
 //@ func (p *Parser) parseDoWhileStatement
 //@   include ParseFrame
-//@   ensures [C06:slot] result2 == nil ==> ImpOK(result1)
+//@   ensures [C06:slot] result2 == nil ==> (ImpOK(result1) && (result1 == nil || fresh(result1)))
 //@   ensures [C20:stack-balanced] result2 == nil ==> (SameStack(p.breakStack, old(p.breakStack)) && SameStack(p.continueStack, old(p.continueStack)))
 //@   loopinv [C20:stack-balanced-inv] SameStack(p.breakStack, old(p.breakStack)) && SameStack(p.continueStack, old(p.continueStack))
 //@ end
@@ -421,35 +430,35 @@ package parser
 //@ func (p *Parser) parseSwitchStatement
 //@   include ParseFrame
 //@   loopinv [C06:slot-inv] resultImpData != nil && fresh(resultImpData) && ImpOK(resultImpData)
-//@   ensures [C06:slot] result3 == nil ==> ImpOK(result2)
+//@   ensures [C06:slot] result3 == nil ==> (ImpOK(result2) && (result2 == nil || fresh(result2)))
 //@   ensures [C20:stack-balanced] result3 == nil ==> (SameStack(p.breakStack, old(p.breakStack)) && SameStack(p.continueStack, old(p.continueStack)))
 //@   loopinv [C20:stack-balanced-inv] SameStack(p.breakStack, old(p.breakStack)) && SameStack(p.continueStack, old(p.continueStack))
 //@ end
 
 //@ func (p *Parser) parseConditionExpression
 //@   include ParseFrame
-//@   ensures [C06:slot] result2 == nil ==> ImpOK(result1)
+//@   ensures [C06:slot] result2 == nil ==> (ImpOK(result1) && (result1 == nil || fresh(result1)))
 //@   ensures [C20:stack-balanced] result2 == nil ==> (SameStack(p.breakStack, old(p.breakStack)) && SameStack(p.continueStack, old(p.continueStack)))
 //@   loopinv [C20:stack-balanced-inv] SameStack(p.breakStack, old(p.breakStack)) && SameStack(p.continueStack, old(p.continueStack))
 //@ end
 
 //@ func (p *Parser) parseBooleanExpression
 //@   include ParseFrame
-//@   ensures [C06:slot] result2 == nil ==> ImpOK(result1)
+//@   ensures [C06:slot] result2 == nil ==> (ImpOK(result1) && (result1 == nil || fresh(result1)))
 //@   ensures [C20:stack-balanced] result2 == nil ==> (SameStack(p.breakStack, old(p.breakStack)) && SameStack(p.continueStack, old(p.continueStack)))
 //@   loopinv [C20:stack-balanced-inv] SameStack(p.breakStack, old(p.breakStack)) && SameStack(p.continueStack, old(p.continueStack))
 //@ end
 
 //@ func (p *Parser) parseRightSideExpression
 //@   include ParseFrame
-//@   ensures [C06:slot] result2 == nil ==> ImpOK(result1)
+//@   ensures [C06:slot] result2 == nil ==> (ImpOK(result1) && (result1 == nil || fresh(result1)))
 //@   ensures [C20:stack-balanced] result2 == nil ==> (SameStack(p.breakStack, old(p.breakStack)) && SameStack(p.continueStack, old(p.continueStack)))
 //@   loopinv [C20:stack-balanced-inv] SameStack(p.breakStack, old(p.breakStack)) && SameStack(p.continueStack, old(p.continueStack))
 //@ end
 
 //@ func (p *Parser) parseLeafBooleanExpression
 //@   include ParseFrame
-//@   ensures [C06:slot] result2 == nil ==> ImpOK(result1)
+//@   ensures [C06:slot] result2 == nil ==> (ImpOK(result1) && (result1 == nil || fresh(result1)))
 //@   ensures [C18:leaf-fresh] result2 == nil ==> (result0 != nil && fresh(result0))
 //@   ensures [C20:stack-balanced] result2 == nil ==> (SameStack(p.breakStack, old(p.breakStack)) && SameStack(p.continueStack, old(p.continueStack)))
 //@   loopinv [C20:stack-balanced-inv] SameStack(p.breakStack, old(p.breakStack)) && SameStack(p.continueStack, old(p.continueStack))
@@ -473,7 +482,7 @@ package parser
 
 //@ func (p *Parser) parsePoryswitchStatement
 //@   include ParseFrame
-//@   ensures [C06:slot] result2 == nil ==> ImpOK(result1)
+//@   ensures [C06:slot] result2 == nil ==> (ImpOK(result1) && (result1 == nil || fresh(result1)))
 //@   ensures [C20:stack-balanced] result2 == nil ==> (SameStack(p.breakStack, old(p.breakStack)) && SameStack(p.continueStack, old(p.continueStack)))
 //@   loopinv [C20:stack-balanced-inv] SameStack(p.breakStack, old(p.breakStack)) && SameStack(p.continueStack, old(p.continueStack))
 //@ end
@@ -489,14 +498,14 @@ package parser
 //@ func (p *Parser) parsePoryswitchStatements
 //@   include ParseFrame
 //@   loopinv [C06:slot-inv] impData != nil && fresh(impData) && ImpOK(impData)
-//@   ensures [C06:slot] result2 == nil ==> ImpOK(result1)
+//@   ensures [C06:slot] result2 == nil ==> (ImpOK(result1) && (result1 == nil || fresh(result1)))
 //@   ensures [C20:stack-balanced] result2 == nil ==> (SameStack(p.breakStack, old(p.breakStack)) && SameStack(p.continueStack, old(p.continueStack)))
 //@   loopinv [C20:stack-balanced-inv] SameStack(p.breakStack, old(p.breakStack)) && SameStack(p.continueStack, old(p.continueStack))
 //@ end
 
 //@ func (p *Parser) parseConstant
 //@   include ParseFrame
-//@   modifies p.constants, p.inlineTextsSet, p.inlineTextCounts, p.inlineMovementsSet, p.inlineMovementCounts, allof(ast.CommandStatement.Args)
+//@   modifies fields(p.constants), fields(p.inlineTextsSet), fields(p.inlineTextCounts), fields(p.inlineMovementsSet), fields(p.inlineMovementCounts), allof(ast.CommandStatement.Args)
 //@   ensures [C20:stack-balanced] result0 == nil ==> (SameStack(p.breakStack, old(p.breakStack)) && SameStack(p.continueStack, old(p.continueStack)))
 //@   loopinv [C20:stack-balanced-inv] SameStack(p.breakStack, old(p.breakStack)) && SameStack(p.continueStack, old(p.continueStack))
 //@ end
